@@ -3,6 +3,8 @@
 import json, sys
 pid = sys.argv[1]
 extra = sys.argv[2] if len(sys.argv) > 2 else ""
+wt = sys.argv[3] if len(sys.argv) > 3 else pid      # worktree name under /tmp/wt
+avoid = sys.argv[4] if len(sys.argv) > 4 else ""    # one-line description of an earlier change to stay away from
 props = {json.loads(l)["id"]: json.loads(l) for l in open("/verif/properties.jsonl")}
 p = props[pid]
 if pid in ("C01", "C02", "C14") and not extra:
@@ -15,7 +17,7 @@ if pid in ("C01", "C02", "C14") and not extra:
     extra = "\nThe rule set, program domain and analysis order the property refers to (DESIGN.md §3.1-§3.3; Fn labels are recorded known defects — a change that merely reproduces one of those known defects does not count):\n\n" + sec + "\n"
 print(f"""You are helping to evaluate a verification effort for the Rust library mrLSD/semantic-analyzer-rs
 (a semantic analyzer: it type-checks and scope-checks a fixed AST and emits a flat semantic instruction stack with
-registers and labels). You have your own scratch git worktree of the repository at /tmp/wt/{pid} (work ONLY there;
+registers and labels). You have your own scratch git worktree of the repository at /tmp/wt/{wt} (work ONLY there;
 never touch /repo or /verif, and do not read anything under /verif). The sandbox is offline: use
 `cargo test --offline` and `cargo test --offline --features codec` (set CARGO_NET_OFFLINE=true).
 
@@ -26,10 +28,10 @@ Here is a semantic property the library is supposed to satisfy:
   statement: {p['statement']}
   quantifier: {p['quantifier']['text']}
 {extra}
-YOUR TASK: produce a realistic change to the library source (under /tmp/wt/{pid}/src) that BREAKS this property while
+YOUR TASK: produce a realistic change to the library source (under /tmp/wt/{wt}/src) that BREAKS this property while
  (a) the crate still compiles without new warnings-as-errors, and
  (b) the existing test suite still passes unedited: `cargo test --offline` AND `cargo test --offline --features codec`
-     in /tmp/wt/{pid} must be fully green with your change applied.
+     in /tmp/wt/{wt} must be fully green with your change applied.
 The change should look like a plausible bug a maintainer could introduce (a refactoring slip, an off-by-one, a wrong
 variable, a dropped propagation to a parent block, a reordered pair of statements, two cooperating sites that each
 look fine alone...). It must need something SPECIFIC to manifest — an unusual input, a particular nesting, a
@@ -42,12 +44,13 @@ how ASTs are built (e.g. tests/utils.rs helpers, `State::default()`, `state.run(
 The demonstration must assert the property itself (as stated above) on a concrete input, not an incidental detail.
 
 Deliverables (write exactly these files):
-  /tmp/wt/{pid}-out/patch.diff   — `git -C /tmp/wt/{pid} diff` of your source change only (src/ only, not the demo test)
-  /tmp/wt/{pid}-out/demo.rs      — the demonstration test file (self-contained; may `mod utils;` like the existing tests if it
+  /tmp/wt/{wt}-out/patch.diff   — `git -C /tmp/wt/{wt} diff` of your source change only (src/ only, not the demo test)
+  /tmp/wt/{wt}-out/demo.rs      — the demonstration test file (self-contained; may `mod utils;` like the existing tests if it
                                    only uses what tests/utils.rs already provides)
-  /tmp/wt/{pid}-out/notes.md     — 5–15 lines: what the change is, why the suite does not notice, what exactly is needed for
+  /tmp/wt/{wt}-out/notes.md     — 5–15 lines: what the change is, why the suite does not notice, what exactly is needed for
                                    it to manifest, and the commands you ran with their outcome (suite green with the change,
                                    demo fails with the change, demo passes without it).
 Verify all three claims yourself by actually running the commands before you finish. If your first idea is caught by the
 existing tests, try another one. Leave the worktree with your source change applied and the demo placed in tests/.
+{("An earlier exercise already produced this change for the same property: " + avoid + " Produce a DIFFERENT one: another site, another mechanism, another triggering input.") if avoid else ""}
 Keep the change small (a few lines). Do not weaken or edit existing tests. Report briefly when done.""")
